@@ -5,6 +5,9 @@
 (*   call   - the caller starts Subscribe / Unsubscribe of a service       *)
 (*   nsOK / nsFail - the answer to the pending stream creation             *)
 (*   fail   - the established stream breaks                                *)
+(*   silent - the established stream goes silent (no error)                *)
+(*   detect - the transport's keepalive turns the silent failure into an   *)
+(*            error                                                        *)
 (*   send   - a stream.Send completes (resubscription or batch) with the   *)
 (*            message as the model has it and the outcome (ok, err, lost)  *)
 (*   int    - an internal step of the client (not controlled, kept for     *)
@@ -30,14 +33,14 @@ VARIABLES hist, finished
 
 gvars == <<vars, hist, finished>>
 
-Obs == [srv |-> srv, deps |-> deps, idle |-> (caller = "idle"), up |-> up,
+Obs == [srv |-> srv, deps |-> deps, idle |-> (caller = "idle"), up |-> up, silent |-> silent,
         subq |-> Len(subCh), unsubq |-> Len(unsubCh), run |-> run, lock |-> lock]
 
 Log(rec) == hist' = Append(hist, [e |-> rec, obs |-> Obs'])
 
 Int(name) == Log([a |-> "int", name |-> name])
 
-SendRes == IF up THEN "ok" ELSE IF run' = "sendSelect" THEN "lost" ELSE "err"
+SendRes == IF up /\ ~silent THEN "ok" ELSE IF up \/ run' = "sendSelect" THEN "lost" ELSE "err"
 
 IntEnabled ==
   ENABLED (CallLock \/ CallEnqueue \/ CallUnlock \/ Backoff \/ ResubLock \/ SenderTakeSub
@@ -73,6 +76,8 @@ GenNext ==
      \/ WaitRecv /\ Int("WaitRecv")
      \/ RecvFail /\ Int("RecvFail")
      \/ EnvMay /\ StreamFail /\ Log([a |-> "fail"])
+     \/ EnvMay /\ SilentFail /\ Log([a |-> "silent"])
+     \/ EnvMay /\ KeepaliveDetect /\ Log([a |-> "detect"])
   /\ UNCHANGED finished
 
 GenSpec == GenInit /\ [][GenNext \/ Finish]_gvars
